@@ -42,6 +42,19 @@ CLAIMED = {
         design_ref='DESIGN.md 6/C07',
         note='Trusted: Coq kernel + vm_compute, Spec/AnnexF.v as transcription of the standard, extraction, harness, hook verif_entries. No axioms.',
         technique='Coq proof by kernel evaluation over the complete finite domain (48 sizes) against a transcribed Annex F; exhaustive correspondence of the traversal'),
+    'C08': dict(
+        text='Theorems (Coq, axiom-free), for all 48 sizes and ALL contents / ALL pixel arrays: C08_render (the rendering layout is '
+             'the standard\'s finder, clock and alignment pattern of Spec/Finder.v, pixel by pixel), C08_parse_render (parsing a '
+             'rendering returns the same content and size), C08_accepts_only_renderings (if parsing accepts any array, re-rendering '
+             'the parsed content reproduces it bit for bit), C08_errors (ZeroWidth / DataSize / SymbolSize). Method: bitmap and '
+             'try_from_bits are generic in the bit type, so the model factors them into a geometry-only layout / action list '
+             '(kernel-evaluated once per size and compared with the spec) and an interpreter, about which the theorems are proved '
+             'for arbitrary bit vectors. Tie: exhaustive layout correspondence (Tag bit type, 48 sizes), renderings, every '
+             'single-pixel deviation of a rendering per size, malformed shapes; a direct Python oracle re-judges every implementation answer.',
+        design_ref='DESIGN.md 6/C08',
+        note='Trusted: Coq kernel + vm_compute, Spec/Finder.v + Table7.v, extraction, harness, hooks verif_entries/verif_from_entries. '
+             'The two-stage form of the model (layout/actions + interpreter) relies on the Rust functions being parametric in the bit type. No axioms.',
+        technique='Coq proof: per-size symbolic evaluation (kernel sweep) + generic interpreter lemmas valid for all bit vectors; exhaustive/differential correspondence'),
 }
 
 PENDING_REASON = 'check not built yet in this round (work proceeds in the order of DESIGN.md section 11); not claimed until its quick command exists'
